@@ -89,12 +89,12 @@ def run_case(ctx, case):
         facts = {'mutation': m, 'failed_tests': res.failed, 'status': res.status, 'stderr_tail': res.err[-500:], 'argv': g.argv}
         mech = {'target': t, 'how': m['how'], 'kind': spec['files'][m['file']]['kind'] if t == 'file' else None}
         if blind:
-            if expect not in res.failed:
+            if not any(f.startswith(expect) for f in res.failed):
                 rec.note('documented blind spot: change on a line carrying a machine/time token not noticed')
             continue
         if res.status == 0 and not res.failed:
             rec.violation('change_not_noticed', {'case': case, 'mech': mech, 'facts': facts})
-        elif expect not in res.failed:
+        elif not any(f == expect or (t == 'file' and f.startswith(expect)) for f in res.failed):
             rec.violation('change_reported_by_another_test', {'case': case, 'mech': dict(mech, reported_by=res.failed[:3]), 'facts': facts})
         elif t != 'status' and 'test_exit_code' in res.failed:
             rec.violation('content_change_fails_exit_code_test', {'case': case, 'mech': mech, 'facts': facts})
